@@ -163,7 +163,9 @@ impl MWorld {
             .iter()
             .map(|id| Node::new(id, &NodeOpts { fd: fd_cfg(), ready_predicate: predicate, initial_kvs: vec![("READY".into(), "true".into())], ..Default::default() }))
             .collect();
-        let watch = nodes.iter().map(|n| n.cc.live_nodes_watcher()).collect();
+        // "NOHOLD": no receiver of the watch channel is kept between evaluations (a consumer that reads
+        // the channel's current value on demand); the value is then read through a fresh receiver
+        let watch = if props.contains(&"NOHOLD") { vec![] } else { nodes.iter().map(|n| n.cc.live_nodes_watcher()).collect() };
         MWorld {
             nodes,
             ids,
@@ -431,9 +433,15 @@ impl MWorld {
                 }
                 expected.insert(m.clone(), ns.max_version());
             }
-            let rx = &mut self.watch[i];
-            let changed = rx.has_changed().unwrap_or(false);
-            let held: BTreeMap<Id, u64> = rx.borrow_and_update().iter().map(|(id, ns)| (real::from_real_id(id), ns.max_version())).collect();
+            let (changed, held): (bool, BTreeMap<Id, u64>) = if self.watch.is_empty() {
+                let rx = self.nodes[i].cc.live_nodes_watcher();
+                let held = rx.borrow().iter().map(|(id, ns)| (real::from_real_id(id), ns.max_version())).collect();
+                (true, held)
+            } else {
+                let rx = &mut self.watch[i];
+                let changed = rx.has_changed().unwrap_or(false);
+                (changed, rx.borrow_and_update().iter().map(|(id, ns)| (real::from_real_id(id), ns.max_version())).collect())
+            };
             self.tally.inc("c13_evaluations_checked");
             if held != expected {
                 return Err((
@@ -562,7 +570,7 @@ pub fn run_sequence(root: Root, predicate: bool, props: &[&'static str], seq: &[
 }
 
 pub fn explore(root: Root, predicate: bool, props: &[&'static str], depth: usize, deadline: Instant) -> Part {
-    let mut part = Part::new(&format!("membership/{:?}{}(depth<={depth})", root, if predicate { "+predicate" } else { "" }));
+    let mut part = Part::new(&format!("membership/{:?}{}{}(depth<={depth})", root, if predicate { "+predicate" } else { "" }, if props.contains(&"NOHOLD") { "+no-receiver-held" } else { "" }));
     let alpha = alphabet(root);
     part.rule = format!("three real nodes A, B, X (phi 2, intervals 1s/2s, dead-node grace 20s); deterministic warm-up of 4 gossip rounds makes everyone live everywhere, X's last write reaches B only; then {}; every sequence of length <= {depth} over {{tick 5s, tick 11s, handshake A->B, B->A, evaluate A, evaluate B, replay one of three SYNs captured during warm-up to A, B writes READY=false/true{}}} is executed from the root with the oracles on every step (adjacent actions on disjoint nodes are explored in one order only); non-trivial = sequences in which a member was quarantined, removed or re-advertised", match root { Root::Crash => "X crashes", Root::Partition => "X stays up but only talks to B", Root::CrashQuarantined => "X crashes and (tick 5s, A and B evaluate, tick 11s) X is quarantined at both survivors", Root::CrashRemovedAtA => "X crashes and (tick 5s, A and B evaluate, tick 11s, tick 11s, A evaluates) A has removed X while B still advertises it", Root::CrashRemovedAtAKeepingB => "X crashes; A and B keep gossiping; after 27s A has removed X while B, which never evaluated, still advertises it", Root::PartitionRemovedAtA => "X stays up but only talks to B, and after 27s without any contact A has removed X (and B) while X kept heartbeating with B", Root::Star => "X stays up but only talks to A", Root::StarBLiveXDead => "X stays up but only talks to A, and (B->A, tick 5s, B->A twice, A evaluates) A holds B live and X dead", Root::StarXResetAtA => "X stays up but only talks to A; X set and deleted a key, collected the tombstone 11s later and gossiped with A, whose copy of X was reset to a LOWER max version" }, if root == Root::Partition || root == Root::PartitionRemovedAtA { ", handshake X->B, B->X" } else if root == Root::Star || root == Root::StarBLiveXDead || root == Root::StarXResetAtA { ", handshake X->A, A->X" } else { "" });
     part.bounds = json!({"alphabet": alpha.iter().map(|a| a.json()).collect::<Vec<_>>(), "depth": depth, "grace_ms": GRACE_MS});
@@ -771,6 +779,13 @@ pub fn run(property: &'static str, tier: Tier, started: Instant) -> Vec<Part> {
     }
     if property == "C12" {
         parts.push(lru_walk());
+    }
+    if property == "C13" {
+        // the same oracle when nobody keeps a receiver between evaluations (the value is read on demand)
+        let props2 = ["C13", "NOHOLD"];
+        let deadline = Instant::now() + Duration::from_secs(tier.pick(8, 600));
+        parts.push(explore(Root::Crash, false, &props2, depth - 1, deadline));
+        parts.push(explore(Root::StarBLiveXDead, true, &props2, depth2 - 2, Instant::now() + Duration::from_secs(tier.pick(8, 600))));
     }
     parts
 }
